@@ -71,6 +71,7 @@ PAIR_OPTIONS = {
     "clip_to_viewbox": ("vector", [True, False]), "reuse_tolerance": ("vector", [0.1, -1.0]), "upem": ("vector", [1024, 2048]), "keep_glyph_names": ("vector", [False, True]),
     "color_format": ("vector", ["glyf_colr_1", "picosvg"]), "bitmap_resolution": ("bitmap", [32, 48]), "use_pngquant": ("bitmap", [True, False]),
     "use_zopflipng": ("bitmap", [True, False]), "width": ("otsvg", [1275, 0]), "ascender": ("vector", [950, 800]),
+    "glyphmap_generator": ("vector", ["nanoemoji.write_glyphmap", "my_glyphmap"]),
 }
 
 MY_GLYPHMAP = '''import sys
@@ -431,6 +432,9 @@ def judge_pair(case, v):
     if fam == "bitmap":
         base["bitmap_resolution"] = 40
     cfgs = []
+    if opt == "glyphmap_generator":
+        base["keep_glyph_names"] = True
+    pyenv = {"PYTHONPATH": os.environ.get("VERIF_REPO", "/repo") + "/src"}
     for i, val in enumerate((a, b)):
         c = dict(base)
         c[opt] = val
@@ -460,7 +464,8 @@ def judge_pair(case, v):
             for name, text in files.items():
                 ws.write(name, text)
             write_toml(ws, "c%d.toml" % i, c, srcs[i])
-            rc, out = ws.run(["nanoemoji", "--build_dir", "build", "c%d.toml" % i], ninja_j=4)
+            ws.write("my_glyphmap.py", MY_GLYPHMAP)
+            rc, out = ws.run(["nanoemoji", "--build_dir", "build", "c%d.toml" % i], ninja_j=4, env={"PYTHONPATH": pyenv["PYTHONPATH"] + ":" + ws.root})
             solo.append((rc, sha(ws.path("build", c["output_file"])), tail(out, 4)))
     if any(rc != 0 for rc, _, _ in solo):
         v.rejected = "a solo build fails"
@@ -471,7 +476,8 @@ def judge_pair(case, v):
             ws.write(name, text)
         for i, c in enumerate(cfgs):
             write_toml(ws, "c%d.toml" % i, c, srcs[i])
-        rc, out = ws.run(["nanoemoji", "--build_dir", "build"] + order, ninja_j=4)
+        ws.write("my_glyphmap.py", MY_GLYPHMAP)
+        rc, out = ws.run(["nanoemoji", "--build_dir", "build"] + order, ninja_j=4, env={"PYTHONPATH": pyenv["PYTHONPATH"] + ":" + ws.root})
         if rc != 0:
             v.fail("pair-build-failed", "%s:%s" % (opt, case["share"]), {"out": "\n".join(l for l in out.splitlines() if "rror" in l or "FAILED" in l or l.startswith("ninja:"))[-1200:], "values": case["values"]})
             return
